@@ -183,12 +183,12 @@ Apply(st, fv, args, kw) ==
   IF fv.k = "fn" THEN FnApply(st, fv.s, args, kw) ELSE RErr(st, "TypeError")
 
 \* ---- T / path steps -------------------------------------------------------------------------
-\* GlomData models indexing only for the strings of StrChars
+\* GlomData models integer indexing only for the strings of StrChars
 TEval(st, t, steps) ==
   LET p == PathEval(st.heap, t, steps) IN
   IF p.ok THEN ROk(st, p.v)
   ELSE LET risky == /\ p.idx >= 0
-                    /\ steps[p.idx + 1].op = "["
+                    /\ steps[p.idx + 1].op = "[" /\ IsNum(steps[p.idx + 1].arg)
                     /\ LET c == PathEval(st.heap, t, SubSeq(steps, 1, p.idx)).v
                        IN c.k = "str" /\ c.s \notin DOMAIN StrChars
        IN RErr(UnkIf(st, risky), p.err)
@@ -208,6 +208,9 @@ Current(env, chunks, i, name) ==
   IF env.mut = "invoke_first"
   THEN ~\E j \in 1..(i - 1) : chunks[j].c \in {"C", "S"} /\ HasName(chunks[j].kw, name)
   ELSE ~\E j \in (i + 1)..Len(chunks) : chunks[j].c \in {"C", "S"} /\ HasName(chunks[j].kw, name)
+
+\* Invoke.star(args=None, kwargs=None): None means "not given"
+StarAbsent(x) == x = <<>> \/ (x[1].op = "const" /\ x[1].v = VNone)
 
 RECURSIVE Eval(_, _, _, _), AutoMode(_, _, _, _), Literal(_, _, _, _), Glomit(_, _, _, _),
           DictLoop(_, _, _, _, _, _), ListLoop(_, _, _, _, _, _), TupleLoop(_, _, _, _, _),
@@ -346,18 +349,18 @@ CoalLoop(st, env, t, s, i) ==
 EagerRest(st, env, t, s, i) ==
   IF i > Len(s.kids) THEN st ELSE EagerRest(Eval(st, env, t, s.kids[i]).st, env, t, s, i + 1)
 
-\* Call.glomit:  r(func)(*r(args), **r(kwargs))  with r = arg_val
+\* Call.glomit:  r(func)(*r(args), **r(kwargs))  with r = arg_val.  Python evaluates the three
+\* operands left to right and only then unpacks them for the call
 CallEval(st, env, t, s) ==
   LET f == Eval(st, ArgEnv(env), t, s.func) IN
   IF ~f.ok THEN f ELSE
   LET a == Eval(f.st, ArgEnv(env), t, s.args) IN
   IF ~a.ok THEN a ELSE
-  LET ua == Unpack(a.st.heap, a.v) IN
-  IF ~ua.ok THEN RErr(a.st, ua.exc) ELSE
-  LET k == Eval(UnkIf(a.st, ua.unk), ArgEnv(env), t, s.kwargs) IN
+  LET k == Eval(a.st, ArgEnv(env), t, s.kwargs) IN
   IF ~k.ok THEN k ELSE
-  LET uk == KwUnpack(k.st.heap, k.v) IN
-  IF ~uk.ok THEN RErr(k.st, uk.exc) ELSE Apply(k.st, f.v, ua.v, uk.v)
+  LET ua == Unpack(k.st.heap, a.v)
+      uk == KwUnpack(k.st.heap, k.v) IN
+  IF ~ua.ok \/ ~uk.ok THEN RErr(k.st, "TypeError") ELSE Apply(UnkIf(k.st, ua.unk), f.v, ua.v, uk.v)
 
 \* Invoke.glomit
 InvokeEval(st, env, t, s) ==
@@ -378,13 +381,15 @@ ChunkLoop(st, env, t, s, fv, i, args, kw) ==
            IF ~k.ok THEN k ELSE
            ChunkLoop(k.st, env, t, s, fv, i + 1, args \o a.v, UpdateAll(kw, k.v, 1))
       [] OTHER ->                                                 \* star(args=, kwargs=)
-           LET a == IF c.args = <<>> THEN ROk(st, VNone) ELSE Eval(st, env, t, c.args[1]) IN
+           LET noa == StarAbsent(c.args)  nok == StarAbsent(c.kw)
+               st0 == UnkIf(st, noa /\ nok)                      \* star() without either is refused by the constructor
+               a == IF noa THEN ROk(st0, VNone) ELSE Eval(st0, env, t, c.args[1]) IN
            IF ~a.ok THEN a ELSE
-           LET ua == IF c.args = <<>> THEN Res(TRUE, <<>>, "", FALSE) ELSE Unpack(a.st.heap, a.v) IN
+           LET ua == IF noa THEN Res(TRUE, <<>>, "", FALSE) ELSE Unpack(a.st.heap, a.v) IN
            IF ~ua.ok THEN RErr(a.st, ua.exc) ELSE
-           LET k == IF c.kw = <<>> THEN ROk(UnkIf(a.st, ua.unk), VNone) ELSE Eval(UnkIf(a.st, ua.unk), env, t, c.kw[1]) IN
+           LET k == IF nok THEN ROk(UnkIf(a.st, ua.unk), VNone) ELSE Eval(UnkIf(a.st, ua.unk), env, t, c.kw[1]) IN
            IF ~k.ok THEN k ELSE
-           LET uk == IF c.kw = <<>> THEN Res(TRUE, <<>>, "", FALSE) ELSE UpdUnpack(k.st.heap, k.v) IN
+           LET uk == IF nok THEN Res(TRUE, <<>>, "", FALSE) ELSE UpdUnpack(k.st.heap, k.v) IN
            IF ~uk.ok THEN RErr(UnkIf(k.st, uk.unk), uk.exc) ELSE
            ChunkLoop(UnkIf(k.st, uk.unk), env, t, s, fv, i + 1, args \o ua.v, UpdateAll(kw, uk.v, 1))
 
@@ -450,12 +455,12 @@ Outcome(r, n0) ==
 \* determined by the results of its sub-specs, evaluated once each, left to right (the state,
 \* and with it the call log, is threaded through the parts in reading order).
 \* =====================================================================================
-Same(a, b) == a = b
 FreshCell(r, st) == r.ok /\ IsRef(r.v) /\ r.v.a > Len(st.heap)
 NewLog(r, st) == SubSeq(r.st.log, Len(st.log) + 1, Len(r.st.log))
 
-\* parts evaluated one after the other against given targets; stops after the first result on
-\* which halt() holds; returns the results obtained so far
+\* parts evaluated one after the other against given targets, the state threaded through; stops
+\* after the first failure (how = "Failed") or the first failure / STOP result ("FailedOrStop");
+\* returns the results obtained so far
 Halts(how, r) == ~r.ok \/ (how = "FailedOrStop" /\ r.v = STOP)
 RECURSIVE Thread(_, _, _, _, _, _)
 Thread(st, env, ts, ss, how, i) ==
@@ -538,18 +543,19 @@ FnLaw(st, t, s, W) ==
   /\ NewLog(W, st) = <<[fn |-> s.name, args |-> <<t>>, kw |-> <<>>]>>
   /\ W = FnApply(st, s.name, <<t>>, <<>>)
 
-\* (L6) Call: func, args, kwargs are evaluated (argument mode) in that order, then the function
-\*      is called exactly once with those values
+\* (L6) Call: func, args, kwargs are evaluated (argument mode) in that order, each once; the
+\*      first failure ends the evaluation; then the function is called exactly once with
+\*      those values:  func(*args, **kwargs)
 CallLaw(st, env, t, s, W) ==
   LET rs == Thread(st, ArgEnv(env), <<t, t, t>>, <<s.func, s.args, s.kwargs>>, "Failed", 1)
       m  == Len(rs) IN
-  IF ~rs[m].ok THEN W = rs[m]
+  IF ~rs[m].ok THEN W = rs[m]                                \* a part failed: nothing after it
   ELSE LET st3 == rs[3].st
-           ua == Unpack(st3.heap, rs[2].v) uk == KwUnpack(st3.heap, rs[3].v) IN
+           ua == Unpack(st3.heap, rs[2].v)  uk == KwUnpack(st3.heap, rs[3].v) IN
        IF ua.ok /\ uk.ok /\ rs[1].v.k = "fn"
        THEN /\ NewLog(W, st3) = <<[fn |-> rs[1].v.s, args |-> ua.v, kw |-> uk.v]>>
-            /\ W = FnApply(st3, rs[1].v.s, ua.v, uk.v)
-       ELSE ~W.ok /\ W.exc = "TypeError" /\ Len(W.st.log) <= Len(st3.log)
+            /\ W = FnApply(UnkIf(st3, ua.unk), rs[1].v.s, ua.v, uk.v)
+       ELSE W = RErr(UnkIf(st3, ua.ok /\ uk.ok /\ ua.unk), "TypeError")   \* not callable with these values
 
 \* (L7) Invoke: the parts are evaluated chunk by chunk in the order written, a keyword given
 \*      twice is taken from the later constants()/specs() chunk and the overridden spec is not
@@ -562,22 +568,25 @@ ChunkParts(chunks, i) ==
   ELSE IF c.c = "S" THEN
     LET cur == SelectSeq(c.kw, LAMBDA p : LaterWins(chunks, i, p[1])) IN
     c.args \o [j \in 1..Len(cur) |-> cur[j][2]]
-  ELSE c.args \o c.kw
+  ELSE (IF StarAbsent(c.args) THEN <<>> ELSE c.args) \o (IF StarAbsent(c.kw) THEN <<>> ELSE c.kw)
 RECURSIVE CatParts(_, _)
 CatParts(chunks, i) == IF i > Len(chunks) THEN <<>> ELSE ChunkParts(chunks, i) \o CatParts(chunks, i + 1)
 InvokeParts(s) ==                \* the specs that are evaluated, in reading order
   (IF s.func.op = "fn" THEN <<>> ELSE <<s.func>>) \o CatParts(s.chunks, 1)
 InvokeLaw(st, env, t, s, W) ==
   LET parts == InvokeParts(s)
-      rs == Thread(st, env, [i \in 1..Len(parts) |-> t], parts, "Failed", 1)
-      m  == Len(rs) IN
-  IF m > 0 /\ ~rs[m].ok THEN W = rs[m]
-  ELSE LET st2 == LastSt(rs, st) new == NewLog(W, st2) IN
-       \* either the one call happened (and is the last thing in the log) or building the
-       \* arguments failed with a TypeError / ValueError before it
-       /\ Len(new) <= 1
-       /\ SubSeq(W.st.log, 1, Len(st2.log)) = st2.log
-       /\ (Len(new) = 0 => ~W.ok /\ W.exc \in {"TypeError", "ValueError"})
+      n  == Len(parts)
+      rs == Thread(st, env, [i \in 1..n |-> t], parts, "Failed", 1)
+      m  == Len(rs)
+      good == IF m > 0 /\ ~rs[m].ok THEN m - 1 ELSE m        \* parts that evaluated successfully
+      after(j) == IF j = 0 THEN st ELSE rs[j].st IN
+  \/ m > 0 /\ ~rs[m].ok /\ W = rs[m]                         \* a part failed: that failure, nothing later
+  \/ \E j \in 0..good :                                      \* the values of parts 1..j cannot be combined
+       W \in {RErr(after(j), "TypeError"), RErr(after(j), "ValueError")}
+  \/ /\ good = n                                             \* every part once, in order, then the one call
+     /\ Len(NewLog(W, after(n))) = 1
+     /\ SubSeq(W.st.log, 1, Len(after(n).log)) = after(n).log
+     /\ (s.func.op = "fn" => NewLog(W, after(n))[1].fn = s.func.name)
 
 \* ---- every node of a spec tree, with the target and state it actually receives ------------
 NodeLaw(st, env, t, s, W) ==
@@ -621,6 +630,14 @@ Lawful(st, env, t, s) ==
               /\ Lawful(st, genv, t, s.kids[1])
               /\ LET u == AltUnit(st, genv, t, s, 1) IN Rejected(s, u) => Lawful(u.st, env, t, rest)
        [] s.op = "spec" -> Lawful(st, genv, t, s.kids[1])
+       [] s.op = "call" ->
+            LET parts == <<s.func, s.args, s.kwargs>>
+                rs == Thread(st, ArgEnv(genv), <<t, t, t>>, parts, "Failed", 1) IN
+            \A i \in 1..Len(rs) : Lawful(IF i = 1 THEN st ELSE rs[i - 1].st, ArgEnv(genv), t, parts[i])
+       [] s.op = "invoke" ->
+            LET parts == InvokeParts(s)
+                rs == Thread(st, genv, [i \in 1..Len(parts) |-> t], parts, "Failed", 1) IN
+            \A i \in 1..Len(rs) : Lawful(IF i = 1 THEN st ELSE rs[i - 1].st, genv, t, parts[i])
        [] s.op = "list" /\ ~lit /\ s.kids # <<>> ->
             LET it == Iterate(st.heap, t) IN
             it.ok /\ it.v # <<>> => Lawful(st, env, it.v[1], s.kids[1])
